@@ -8,7 +8,7 @@ P = {}
 def claim(pid, technique, text, note, ref):
     P[pid] = dict(technique=technique, text=text, note=note, ref=ref)
 
-TB = ("Trusted base: go/types, go/cfg, go/packages (x/tools v0.29.0), the Go toolchain loading /repo; dependencies outside /repo behave as documented. Besides the rules named here the check evaluates the effect tables of the functions involved (required calls with constant arguments on their licensing edges, DESIGN.md §9.8). "
+TB = ("Trusted base: go/types, go/cfg, go/packages (x/tools v0.29.0), the Go toolchain loading /repo; dependencies outside /repo behave as documented. Besides the rules named here the check evaluates the effect tables of the functions involved (required calls with constant arguments on their licensing edges, DESIGN.md §9.8). Names are resolved through an embedded baseline of the pinned tree (structural hashes of functions, closures and local definitions) that recognises renamed functions / locals and treats new private helpers as part of their callers; it names constructs and decides nothing (DESIGN.md §9.10). "
       "Decides the named structural necessary conditions only, not the run-time behaviour (see DESIGN.md 'Not decided').")
 
 claim("C13", "call-site enumeration with constant evaluation (no partial frames), structural formula extraction, dominance on go/cfg, held-lock analysis",
@@ -43,7 +43,7 @@ claim("C01", "who-may-mutate the write buffer, must-held-lock dataflow at take/s
       TB, "DESIGN.md §3 C01")
 
 claim("C02", "edge dominance of delivery emits by the open-state test, who-may-emit, loop-edge reachability (close stops the payload), call-site enumeration of decode/dispatch, absence of go statements on the dispatch chain, who-may-call onPacket",
-      "Static skeleton of once-in-order inbound delivery: every delivery emit in onPacket is dominated by ReadyState()==open and message/data are emitted only there, once each on the MESSAGE edge with the packet's own Data; polling.OnData stops at a close packet and hands each loop variable to OnPacket once; a websocket/webtransport frame is decoded as exactly one packet with the buffer kind matching the frame type and only on the read-success edge; the dispatch chain contains no go statement (delivery order = payload order); candidate transports are never wired to onPacket; JSONP bodies are taken from the d field only. Decoding correctness for all payload shapes (external parser, regexp semantics) and byte identity are not decided.",
+      "Static skeleton of once-in-order inbound delivery: every delivery emit in onPacket is dominated by ReadyState()==open and message/data are emitted only there, once each on the MESSAGE edge with the packet's own Data; polling.OnData stops at a close packet and hands each loop variable to OnPacket once; a websocket/webtransport frame is decoded as exactly one packet with the buffer kind matching the frame type and only on the read-success edge; the dispatch chain contains no go statement (delivery order = payload order); candidate transports are never wired to onPacket; JSONP bodies are taken from the d field only; while the pinned parser's payload decoder scans with a default-limit bufio.Scanner (the dependency is inspected on every run) a revision-4 payload is never handed to it — polling cuts it at the separator and decodes each piece (C02.12). Decoding correctness for all payload shapes (external parser, regexp semantics) and byte identity are not decided.",
       TB, "DESIGN.md §3 C02")
 
 claim("C18", "must-precede/once queries on go/cfg, who-may-mutate the callback queues, who-may-emit transport drain, interprocedural may-held-lock analysis (synchronous call graph + the repo's listener wiring, deferred calls LIFO) intersected with the locks re-acquirable from Send/Write/Close",
@@ -67,7 +67,7 @@ claim("C08", "sibling gate agreement by edge dominance, who-may-install-a-transp
       TB, "DESIGN.md §3 C08")
 
 claim("C09", "call-graph reachability from the client-byte entry points (static calls + CHA + the repo's listener and timer-callback wiring) for the panic allow-list, interprocedural must-held-lock rule for connection writes, nil-safety rules, emitter/listener signature agreement by type assignability, answer-or-park path rule, reader-loop exit rule",
-      "Crash and hang clauses only: the only explicit panics reachable from client input are the allow-listed webtransport guards (made unreachable by the rule that every connection write holds the transport mutex) and the documented repeated-read guard; no Timer method on a nil holder; JSON decode targets cannot be nil-dereferenced; every unchecked type assertion / index in a listener is matched by all Emit sites of that event (argument count and assignable type) and errorContext messages are strings; every other single-value type assertion in the repository is a frozen site whose dynamic type the repository fixes (none on packet data); no dereference on an edge where the code's own nil test has just failed; every close of a field channel is behind a won CompareAndSwap (the request context's done channel only in Flush); every path of the polling/HTTP request functions answers, parks or delegates; reader goroutines leave their loop on a read error; request bodies and frames are read through limits. Work proportional to input (the known exponential spin is in the external parser), run-time panics inside dependencies and isolation under load are not decided.",
+      "Crash and hang clauses only: the only explicit panics reachable from client input are the allow-listed webtransport guards (made unreachable by the rule that every connection write holds the transport mutex) and the documented repeated-read guard; no Timer method on a nil holder; JSON decode targets cannot be nil-dereferenced; every unchecked type assertion / index in a listener is matched by all Emit sites of that event (argument count and assignable type) and errorContext messages are strings; every other single-value type assertion in the repository is a frozen site whose dynamic type the repository fixes (none on packet data); no dereference on an edge where the code's own nil test has just failed; every close of a field channel is behind a won CompareAndSwap (the request context's done channel only in Flush); a pointer / interface variable shared by the callbacks of one function (listeners, timers: other goroutines) is not re-assigned by one of them (C09.16); every path of the polling/HTTP request functions answers, parks or delegates; reader goroutines leave their loop on a read error; request bodies and frames are read through limits. Work proportional to input (the known exponential spin is in the external parser), run-time panics inside dependencies and isolation under load are not decided.",
       TB, "DESIGN.md §3 C09")
 claim("C10", "taint-style who-may-read rule for request bodies, dominance of body reads by the declared-length test, must-precede of SetReadLimit before the first read, limit-enforcement path rule in advanceFrame, resolved option-accessor chains",
       "Static rules: every use of a request body other than Close goes through http.MaxBytesReader/LimitReader with a limit from MaxHttpBufferSize() and overflow is answered 413; a declared oversize is refused with 413 before reading; the gorilla and WebTransport connections get SetReadLimit(Opts().MaxHttpBufferSize()) before the first read and the limited Conn is the one used; advanceFrame's every successful data-frame return passes the accumulate/overflow/limit tests (violation edge closes the session and returns ErrReadLimit); the reader clamps to the declared length; transports receive their limit from the same option accessor that the open packet advertises. Byte/character accounting, 'limit plus a constant' as a number and gorilla's own enforcement are not decided.",
